@@ -786,6 +786,65 @@ func ruleHybridAtomicAdd(r *Run, k *hybridKind) {
 			ret, ok := in.(*ssa.Return)
 			return ok && classifyErr(ret) == ErrNonNil
 		}, func(in ssa.Instruction) bool { return compensates(in, idx) })
+		// a deferred clean-up registered before this point runs at every exit: if it removes from this sub-index (keyed on
+		// the function's error result and the progress flags) the failing returns are compensated there
+		if esc != nil {
+			allInstrs(fn, func(in ssa.Instruction) {
+				d, isDefer := in.(*ssa.Defer)
+				if !isDefer || !(d.Block() == succ || d.Block().Dominates(succ)) {
+					return
+				}
+				if mc, isMC := d.Call.Value.(*ssa.MakeClosure); isMC {
+					if g, isFn := mc.Fn.(*ssa.Function); isFn {
+						var visit func(h *ssa.Function, bind []ssa.Value, depth int)
+						visit = func(h *ssa.Function, bind []ssa.Value, depth int) {
+							ch := NewCanon(w)
+							for _, rm := range invokesOf(h, "Remove") {
+								if t, ok := translatePath(c, ch.S(rm.Call.Value), nil, bind); ok && t == idx {
+									esc = nil
+								}
+							}
+							if depth > 0 {
+								return
+							}
+							// the closure may call the rollback helper
+							for _, cs := range callsIn(h, func(cc *ssa.CallCommon) bool { k := staticCallee(cc); return k != nil && k.Pkg == w.SPkg }) {
+								k := staticCallee(cs.Common())
+								ck := NewCanon(w)
+								for _, rm := range invokesOf(k, "Remove") {
+									if strings.HasSuffix(idx, strings.TrimPrefix(ck.S(rm.Call.Value), "P0")) {
+										esc = nil
+									}
+								}
+							}
+						}
+						visit(g, mc.Bindings, 0)
+					}
+				}
+			})
+		}
+		if esc != nil {
+			// decided per path when failures travel through variables (the sub-add lives in an inlined helper that returns
+			// its verdict): a feasible path from the success side to a failing return without a compensation
+			paths, trunc := enumPaths(succ, walkCfg{MaxVisits: 1, MaxPaths: 20000 * pathScale, Decide: decideOnPath})
+			if !trunc {
+				esc = nil
+				for _, pth := range paths {
+					if pth.End != EndReturn || !pth.Feasible() || pathErrClass(pth) != ErrNonNil {
+						continue
+					}
+					comp := false
+					for _, in := range pth.Instrs() {
+						if compensates(in, idx) {
+							comp = true
+						}
+					}
+					if !comp {
+						esc = pth.Ret
+					}
+				}
+			}
+		}
 		if esc != nil {
 			r.Bad(rule, fmt.Sprintf("hybrid:sub-add#%d:rollback", i+1), w.InstrPos(esc)+" "+name,
 				"after "+idx+".Add succeeded, the error return at "+w.InstrPos(esc)+" is reachable without removing the document from "+idx)
@@ -838,15 +897,21 @@ func ruleHybridAtomicAdd(r *Run, k *hybridKind) {
 				if !ok || fieldName(fa.X.Type(), fa.Field) != flag {
 					return
 				}
-				if cst, ok := st.Val.(*ssa.Const); !ok || cst.Value == nil || cst.Value.ExactString() != "true" {
+				if cst, ok := st.Val.(*ssa.Const); ok {
+					if cst.Value == nil || cst.Value.ExactString() != "true" {
+						return
+					}
+					// dominated by the matching sub-add
+					for _, add := range adds {
+						if c.S(add.Call.Value) == idx && domInstr(add, st) {
+							set = true
+						}
+					}
 					return
 				}
-				// dominated by the matching sub-add
-				for _, add := range adds {
-					if c.S(add.Call.Value) == idx && domInstr(add, st) {
-						set = true
-					}
-				}
+				// the flag is given a computed value (the verdict of a helper): when it ends up true is decided by the
+				// FLAGS table over the success paths
+				set = true
 			})
 			r.Check(set, rule, "hybrid:rollback:flag:"+flag, w.InstrPos(rm)+" "+w.Name(g), "rollback of "+idx+" is keyed on "+flag+", which the add routine sets after that sub-add succeeded",
 				"rollback of "+idx+" depends on "+flag+", which is not set after the corresponding sub-add")
@@ -1291,7 +1356,9 @@ func ruleHybridRemove(r *Run, k *hybridKind) {
 		}
 		arg := c.S(rm.Call.Args[0])
 		idOK := arg == "P1" || strings.Contains(arg, "NewVectorNodeWithID(P1,") || strings.Contains(arg, "NewMetadataNodeWithID(P1,")
-		r.Check(flag == wantFlag[idx] && idOK, "C06.RM", "hybrid:remove:covers:"+idx, w.InstrPos(rm)+" "+name, "removal from "+idx+" keyed on "+flag+" with the document id",
+		// (when no dominating flag test is found the guard may be carried in a variable: when the removal runs is decided by
+		// the C06.FLAGS table over the success paths; here only a wrong flag is a finding)
+		r.Check((flag == wantFlag[idx] || flag == "") && idOK, "C06.RM", "hybrid:remove:covers:"+idx, w.InstrPos(rm)+" "+name, "removal from "+idx+" keyed on "+flag+" with the document id",
 			fmt.Sprintf("removal from %s is keyed on %q (want %q) with argument %s", idx, flag, wantFlag[idx], arg))
 	}
 	// RM.ATOMIC: the removals after the first fallible one cannot fail — their implementations return only nil
